@@ -139,6 +139,22 @@ fn fixword_print_parse() {
     }
 }
 
+/// hand-written forms of a real number (PLtoTF.2014.62-66): signs toggle, the integer part or the fraction may be missing
+#[test]
+fn fixword_parse_forms() {
+    std::panic::set_hook(Box::new(|_| {}));
+    let one = 1i64 << 20;
+    for (text, want) in [("1.5", one * 3 / 2), ("--1.5", one * 3 / 2), ("- -1.5", one * 3 / 2), ("-+-0.25", one / 4), ("+1.5", one * 3 / 2), ("-1.5", -one * 3 / 2), ("---1.5", -one * 3 / 2),
+                         ("-0.0", 0), (".5", one / 2), ("5", 5 * one), ("5.", 5 * one), ("-.5", -one / 2), ("+-+-2047.5", 2047 * one + one / 2), ("- 3", -3 * one), ("0.0000005", 1), ("0.9999999", one), ("0.9999995", one - 1)] {
+        let src = format!("(FONTDIMEN (SLANT R {text}))");
+        let got = std::panic::catch_unwind(move || pl::File::from_pl_source_code(&src)).ok();
+        let back = got.as_ref().and_then(|(f, _)| f.params.first().copied()).map(|b| b.0 as i64);
+        if back != Some(want) {
+            println!("WITNESS {{\"fn\": \"parse\", \"unit_fns\": [\"parse\"], \"text\": \"R {text}\", \"observed\": \"{:?}\", \"expected\": \"{want} (PLtoTF.2014.62-66)\"}}", back); return;
+        }
+    }
+}
+
 /// next-larger chains on every functional graph over 4 characters
 #[test]
 fn next_larger_graphs() {
